@@ -72,7 +72,7 @@ func strictlyAfter(a, b time.Time) bool {
 	if as != bs {
 		return as > bs
 	}
-	return a.Nanosecond() > b.Nanosecond()
+	return a.Nanosecond() > 0 // the lock b commits to whole seconds only
 }
 
 // ---------------------------------------------------------------------------
